@@ -71,8 +71,8 @@ def compare(orig, got, case, route):
         bad("time differs or is not UTC")
     if got["measurement"] != orig["measurement"] or type(got["measurement"]) is not str:
         bad("measurement differs")
-    if got["tags"] != orig["tags"] or list(got["tags"]) != list(orig["tags"]):
-        bad("tags differ (tags must stay tags, in order)")
+    if got["tags"] != orig["tags"]:
+        bad("tags differ (tags must stay tags)")
     if set(got["fields"]) != set(orig["fields"]):
         bad("field keys differ (fields must stay fields)")
     for k, v in orig["fields"].items():
